@@ -11,6 +11,7 @@ struct Chain {
 	lzma_options_lzma lz;
 	lzma_options_bcj bcj;
 	lzma_options_delta delta;
+	lzma_options_delta delta2;   // extra Delta filters in front (chains of the maximum length)
 	Bytes preset_dict;
 	std::string desc;
 	bool has_bcj = false;
